@@ -11,7 +11,17 @@ Since the c-round (seeded C07-c1, C07-c2, C09-c1): channels can be small and ful
 time can pass with a channel held full (`sleep <ms>`; the configurable timeouts are small: `sot=<ms>`, and the transport of a
 `via=accept` connection has connection_open_timeout = 1 s), connections can go through the REAL `TcpTransport::accept` future
 (`via=accept`, `accept`; model Model/Conn/Accept.lean), and held substreams can be half-closed and read from (`half_close`,
-`read_sub`, `remote_send`). Durations are never compared."""
+`read_sub`, `remote_send`). Durations are never compared.
+
+Since the d-round (seeded C08-d2, C09-d1): observations carry the substream ids (`Oo<id>`, `X<id>`; requests are numbered
+1000 + n by acceptance) and the negotiated name (`.f<k>` = the protocol's k-th fallback name); protocols can have fallback
+names (`fb=<i>:<n>`), the remote can propose them (`<i>.f<k>`) or know nothing else (`remote=fallback`); `burst <i> <n>`
+sends n open requests in a row (more than 256 = the command channel is full: `ok256,clogged`); with `remote=stall` the yamux
+streams are never acknowledged, so beyond 256 pending requests `Control::open_stream()` does not return and only the OUTER
+timer of the request's future can answer it; `sot=` is small in those cases and a `sleep` of timeout + 500 ms follows.
+C08 pulls the area in as well (`oracle_c08`). On a `sot=` connection the driver reads WHICH outbound requests of a
+listening protocol timed out during an operation from the implementation's observation (it has no clock)."""
+import re
 from .common import bump
 
 AREA = "tcploop"
@@ -30,8 +40,33 @@ def model_lines(case, impl):
     return res
 
 
+def _canon_field(v):
+    items = v.split(",")
+    ans = sorted(m for m in items if m[:1] in ("O", "X"))
+    out, k = [], 0
+    for m in items:
+        if m[:1] in ("O", "X"):
+            out.append(ans[k])
+            k += 1
+        else:
+            out.append(m)
+    return ",".join(out)
+
+
 def normalize(line):
-    return "panic" if line.startswith("panic") else line
+    """Observations are compared up to the order in which the answers to different requests / inbound substreams
+    (`O..`, `X..`) reach a protocol within one operation (`FuturesUnordered`'s business, part of no property);
+    everything else keeps its place. The driver does the same (`canon` in Driver/Tcploop.lean)."""
+    if line.startswith("panic"):
+        return "panic"
+    if " p0=" not in line:
+        return line
+    toks = line.split(" ")
+    for i, t in enumerate(toks):
+        k, eq, v = t.partition("=")
+        if eq and k[:1] == "p" and k[1:].isdigit():
+            toks[i] = k + "=" + _canon_field(v)
+    return " ".join(toks)
 
 
 # ------------------------------------------------------------------------------------------ generator
@@ -198,11 +233,119 @@ def half_case(rng):
     return ops
 
 
+def burst_case(rng, big=True, allow_close=True):
+    """The C08-d2 shape: more outbound open requests than yamux lets wait for acknowledgement (256), to a remote that
+    takes the yamux streams and never answers; `substream_open_timeout` is small. Every request — also the ones whose
+    yamux stream is never even opened — must be answered (failure with its id) once the timeout has passed, and the
+    connection must go on working. Small variant: a handful of requests to a stalling remote."""
+    ka = rng.choice(["Y", "Y", "YN", "NY", "YY"])
+    n = len(ka)
+    i = rng.randrange(n)
+    sot = rng.choice([300, 300, 500])
+    fbs = f" fb={i}:{rng.choice([1, 2])}" if rng.random() < 0.3 else ""
+    ops = [f"conn ka={ka} remote=stall sot={sot}{fbs}"]
+    if big:
+        total = rng.choice([257, 257, 258, 264, 300])
+        shape = rng.choice(["split", "split", "clog"])
+        if shape == "clog":
+            # more than the command channel takes: the rest is refused (`clogged`), asked again after a `run`
+            ops += [f"burst {i} {total}", "run", f"burst {i} {total - 256}", "run"]
+        else:
+            a = rng.choice([100, 200, 256])
+            ops += [f"burst {i} {a}", "run", f"burst {i} {total - a}", "run"]
+        if n > 1 and rng.random() < 0.5:
+            ops += [f"local_open {(i + 1) % n}", "run"]
+    else:
+        for _ in range(rng.choice([1, 2, 3, 5])):
+            ops.append(rng.choice([f"local_open {i}", f"local_open {rng.randrange(n)}", f"burst {i} {rng.choice([2, 3])}"]))
+            if rng.random() < 0.4:
+                ops.append("run")
+        ops.append("run")
+    if big:
+        # while the last requests wait for the ACK backlog to shrink the connection must go on working: an inbound
+        # substream is accepted, a remote close is noticed (the pending requests then end with the connection)
+        pre = rng.choice(["none", "none", "inbound", "inbound", "close" if allow_close else "inbound"])
+        if pre == "inbound":
+            ops += [f"remote_open {rng.randrange(n)} full", "run"]
+        elif pre == "close":
+            ops += [rng.choice(["remote_close", "remote_goaway"]), "run", "run"]
+            return ops
+    ops.append(f"sleep {sot + TIMEOUT_MARGIN + 100}")
+    # afterwards the connection still works
+    tail = rng.choice(["inbound", "open_again", "close", "idle"])
+    if tail == "inbound":
+        ops += [f"remote_open {rng.randrange(n)} full", "run"] + close_cause(rng, n) + ["run", "run"]
+    elif tail == "open_again":
+        ops += ["remote_policy accept", f"local_open {i}", "run", f"drop_sub {i}", "run"] + close_cause(rng, n) + ["run", "run"]
+    elif tail == "close":
+        ops += close_cause(rng, n, allow_idle=False) + ["run", "run"]
+    else:
+        ops += [f"downgrade {j}" for j in range(n)] + ["run", "run"]
+    return ops
+
+
+def fallback_case(rng):
+    """The C09-d1 shape: protocols with fallback names. A substream negotiated under a fallback name — proposed by the
+    remote, or agreed on by a remote that only knows the old name of a protocol we ask for — is a substream of THAT
+    protocol: reported to it (with the name), and for a keep-alive protocol it holds the connection across the release
+    of every handle, until it is dropped."""
+    ka = kinds(rng)
+    n = len(ka)
+    fb = [rng.choice([0, 1, 2, 2]) for _ in range(n)]
+    j = rng.choice([x for x in range(n) if ka[x] == "Y"] or list(range(n)))
+    if fb[j] == 0:
+        fb[j] = rng.choice([1, 2])
+    fbs = ",".join(f"{x}:{fb[x]}" for x in range(n) if fb[x])
+    pol = rng.choice(["fallback", "fallback", "accept", "stall"])
+    ops = [f"conn ka={ka} fb={fbs} remote={pol}" + rng.choice(["", "", " cap=2"])]
+    f = rng.randint(1, fb[j])
+    how = rng.choice(["in_full", "in_full", "in_hdr", "out"])
+    if how == "in_full":
+        ops += [f"remote_open {j}.f{f} full", "run"]
+    elif how == "in_hdr":
+        ops += [f"remote_open {j} hdr", "run", rng.choice([f"remote_continue 0 {j}.f{f}", f"remote_continue 0 {j}.f{f}",
+                                                             f"remote_continue 0 {j}.f{fb[j] + 1}"]), "run"]
+    else:
+        ops += [f"local_open {j}", "run", "run"]
+    # a second substream of some protocol, under any name
+    if rng.random() < 0.5:
+        x = rng.randrange(n)
+        ops += [rng.choice([f"remote_open {x} full", f"remote_open {x}.f{rng.randint(1, 2)} full", f"local_open {x}"]), "run"]
+    order = list(range(n))
+    rng.shuffle(order)
+    for i in order:
+        ops.append(rng.choice([f"downgrade {i}", f"downgrade {i}", f"drop_handle {i}"]))
+        if rng.random() < 0.3:
+            ops.append("run")
+    ops += ["run", "run"]
+    if rng.random() < 0.3:
+        ops += [f"half_close {j}", "run"]
+    end = rng.choice(["drop_sub", "drop_sub", "keep", "remote_close"])
+    if end == "drop_sub":
+        ops += [f"drop_sub {j}", "run", f"drop_sub {j}", "run"]
+    elif end == "remote_close":
+        ops += ["remote_close", "run"]
+    return ops
+
+
 def random_case(rng, length):
     ka = kinds(rng)
     n = len(ka)
     via = rng.random() < 0.15
-    head = f"conn ka={ka} remote={rng.choice(['accept', 'accept', 'refuse', 'stall'])}"
+    head = f"conn ka={ka} remote={rng.choice(['accept', 'accept', 'refuse', 'stall', 'fallback'])}"
+    fb = [0] * n
+    if rng.random() < 0.3:
+        fb = [rng.choice([0, 1, 2]) for _ in range(n)]
+        if any(fb):
+            head += " fb=" + ",".join(f"{x}:{fb[x]}" for x in range(n) if fb[x])
+
+    def wire(i):
+        r = rng.random()
+        if r < 0.55:
+            return str(i)
+        if r < 0.8:
+            return f"{i}.f{rng.randint(1, 2)}"      # may or may not be a name of protocol i
+        return "x"
     if rng.random() < 0.35:
         head += f" cap={rng.choice([1, 1, 2, 3])}"
     if rng.random() < 0.1:
@@ -233,18 +376,18 @@ def random_case(rng, length):
         elif r < 0.49:
             ops.append(f"drop_handle {i}")
         elif r < 0.58:
-            ops.append(f"local_open {i}")
+            ops.append(f"local_open {i}" if rng.random() < 0.85 else f"burst {i} {rng.choice([2, 3])}")
         elif r < 0.61:
             ops.append(f"force_close {i}")
         elif r < 0.75:
             how = rng.choice(["hdr", "full", "full"])
-            name = rng.choice([str(i), str(i), "x"])
+            name = wire(i)
             ops.append(f"remote_open {name} {how}")
             proposed[opened] = how == "full" and name != "x"
             opened += 1
         elif r < 0.83 and opened:
             k = rng.randrange(opened)
-            ops.append(f"remote_continue {k} {rng.choice([str(i), str(i), 'x'])}")
+            ops.append(f"remote_continue {k} {wire(i)}")
         elif r < 0.86 and opened:
             ops.append(f"remote_reset {rng.randrange(opened)}")
         elif r < 0.88:
@@ -256,7 +399,7 @@ def random_case(rng, length):
         elif r < 0.96:
             ops.append(f"drop_rx {i}")
         elif r < 0.98:
-            ops.append(f"remote_policy {rng.choice(['accept', 'refuse', 'stall'])}")
+            ops.append(f"remote_policy {rng.choice(['accept', 'refuse', 'stall', 'fallback'])}")
         else:
             ops.append("run")
     ops += ["run", "run"]
@@ -299,7 +442,18 @@ def fixed_cases():
          "remote_close", "run"],
         ["conn ka=YN via=accept", "accept", "remote_open 1 full", "run", "remote_goaway", "run"],
         ["conn ka=Y via=accept", "run", "accept", "accept", "downgrade 0", "run"],
+        # a substream negotiated under a fallback name of a keep-alive protocol holds the connection; reported to its protocol
+        ["conn ka=YN fb=0:2,1:1", "remote_open 0.f2 full", "run", "downgrade 0", "downgrade 1", "run", "run", "drop_sub 0", "run"],
+        ["conn ka=NY fb=0:1,1:1", "remote_open 0.f1 full", "run", "downgrade 0", "downgrade 1", "run"],
+        ["conn ka=Y fb=0:1 remote=fallback", "local_open 0", "run", "run", "downgrade 0", "run", "drop_sub 0", "run"],
+        ["conn ka=YY fb=1:1 remote=fallback", "local_open 0", "local_open 1", "run", "run"],
+        ["conn ka=Y fb=0:1", "remote_open 0.f2 full", "run", "remote_continue 0 0.f1", "run", "downgrade 0", "run"],
+        # outbound requests to a remote that never answers, small timeout: each one is answered with its id
+        ["conn ka=Y remote=stall sot=300", "local_open 0", "burst 0 2", "run", "sleep 800", "downgrade 0", "run"],
+        # more requests than the command channel takes: the rest is refused
+        ["conn ka=Y remote=stall", "burst 0 300", "run", "burst 0 10", "force_close 0", "run"],
         ["conn ka=YYYYY"], ["run"], ["conn ka=Y", "bogus"], ["conn ka=Y cap=0"], ["conn ka=Y", "sleep 99999"],
+        ["conn ka=Y fb=0:3"], ["conn ka=Y fb=1:1"], ["conn ka=Y", "burst 0 0"], ["conn ka=Y", "remote_open 0.f3 full"],
     ]
 
 
@@ -320,6 +474,9 @@ def gen_cases(rng, tier, focus=None):
     n_acc_hold = {"quick": 3, "thorough": 24, "search": 1}[tier]
     if focus == "C09":
         n_long, n_short, n_acc_hold = 0, 0, (1 if tier != "search" else 0)
+    if focus == "C08":
+        n_long, n_short, n_acc_hold = 0, 1, 1
+        n_race, n_span, n_rand = n_race // 3, n_span // 3, n_rand // 2
     cases += [hold_case(rng, 6000) for _ in range(n_long)]
     cases += [hold_case(rng, 1500, sot=1000) for _ in range(n_short)]
     cases += [accept_hold_case(rng, 1500) for _ in range(n_acc_hold)]
@@ -331,6 +488,19 @@ def gen_cases(rng, tier, focus=None):
         n_acc //= 3
     cases += [half_case(rng) for _ in range(n_half)]
     cases += [accept_case(rng) for _ in range(n_acc)]
+    # d-round: bursts of outbound requests beyond the yamux ACK backlog against a stalling remote with a small
+    # substream_open_timeout (C08-d2; each costs its timeout + margin of wall time), fallback names (C09-d1)
+    n_burst = {"quick": 2, "thorough": 16, "search": 1}[tier]
+    n_stall = {"quick": 3, "thorough": 40, "search": 2}[tier]
+    n_fb = {"quick": 40, "thorough": 800, "search": 60}[tier]
+    if focus == "C08":
+        n_burst, n_stall = {"quick": 4, "thorough": 32, "search": 2}[tier], {"quick": 6, "thorough": 80, "search": 3}[tier]
+    if focus == "C07":
+        n_fb //= 4
+    # (the first one always waits past the timeout)
+    cases += [burst_case(rng, allow_close=k > 0) for k in range(n_burst)]
+    cases += [burst_case(rng, big=False) for _ in range(n_stall)]
+    cases += [fallback_case(rng) for _ in range(n_fb)]
     if focus != "C09":
         cases.append([f"arrange_race {RACE_ROUNDS[tier]}"])
     else:
@@ -343,18 +513,29 @@ def gen_cases(rng, tier, focus=None):
 
 # ------------------------------------------------------------------------------------------ observations
 
+_BASE = re.compile(r"^(Oi|Oo|X|E|C|F|\?)")
+
+
+def base(msg):
+    """'Oo1003.f1' -> 'Oo', 'X1000' -> 'X', 'Oi.f2' -> 'Oi'."""
+    m = _BASE.match(msg)
+    return m.group(1) if m else msg
+
+
 def parse(o):
-    """'<ret> loop=.. acc=.. strong=.. p0=.. m=.. [stuck]' -> dict or None."""
+    """'<ret> loop=.. acc=.. strong=.. p0=.. m=.. [stuck]' -> dict or None. `p`: message kinds per protocol
+    (`Oi`, `Oo`, `X`, ..), `praw`: as printed (`Oo1003.f1`, `X1000`, `Oi.f2`)."""
     t = o.split()
     if len(t) < 5 or not t[1].startswith("loop="):
         return None
-    d = {"ret": t[0], "stuck": t[-1] == "stuck", "p": {}}
+    d = {"ret": t[0], "stuck": t[-1] == "stuck", "p": {}, "praw": {}}
     for x in t[1:]:
         if "=" not in x:
             continue
         k, v = x.split("=", 1)
         if k[0] == "p" and k[1:].isdigit():
-            d["p"][int(k[1:])] = [] if v in ("-", "x") else v.split(",")
+            d["praw"][int(k[1:])] = [] if v in ("-", "x") else v.split(",")
+            d["p"][int(k[1:])] = [base(m) for m in d["praw"][int(k[1:])]]
             if v == "x":
                 d.setdefault("dead", set()).add(int(k[1:]))
         elif k == "m":
@@ -362,6 +543,43 @@ def parse(o):
         else:
             d[k] = v
     return d
+
+
+def conn_opts(line):
+    """Options of a `conn` line."""
+    c = {"ka": "", "fb": [0, 0, 0, 0], "via": False, "sot": None, "policy": "accept", "small": False}
+    for a in line.split()[1:]:
+        k, _, v = a.partition("=")
+        if k == "ka":
+            c["ka"] = v
+        elif k == "fb":
+            for part in v.split(","):
+                i, _, n = part.partition(":")
+                if i.isdigit() and n.isdigit() and int(i) < 4:
+                    c["fb"][int(i)] = int(n)
+        elif a == "via=accept":
+            c["via"] = True
+        elif k == "sot" and v.isdigit():
+            c["sot"] = int(v)
+        elif k == "remote":
+            c["policy"] = v
+        elif k in ("cap", "mcap"):
+            c["small"] = True
+    c["n"] = len(c["ka"])
+    return c
+
+
+def name_proto(tok, n, fb):
+    """Wire name token (`<j>`, `<j>.f<k>`, `x`) -> (protocol, fallback index) if it is a name of an installed
+    protocol, else None."""
+    j, _, f = tok.partition(".f")
+    if not j.isdigit() or int(j) >= n:
+        return None
+    if f == "" and "." not in tok:
+        return int(j), 0
+    if f.isdigit() and 1 <= int(f) <= fb[int(j)]:
+        return int(j), int(f)
+    return None
 
 
 def race_outcomes(o):
@@ -505,26 +723,21 @@ def oracle_c09(case, out):
                     v("idle-not-closed", f"{cnt} connections without any strong sender left were not closed", 0)
                     break
         return bad
-    ka = ""
-    via = timeouts = False
-    for a in case[0].split()[1:]:
-        if a.startswith("ka="):
-            ka = a[3:]
-        via = via or a == "via=accept"
-        timeouts = timeouts or a.startswith("sot=")
-    n = len(ka)
-    # inbound streams: target protocol (first known-name proposal anywhere in the case)
+    co = conn_opts(case[0])
+    ka, via, timeouts, n, fb = co["ka"], co["via"], co["sot"] is not None, co["n"], co["fb"]
+    # inbound streams: target protocol (first proposal of a name — main or fallback — of an installed protocol,
+    # anywhere in the case): the permit rule is per protocol, whichever of its names is negotiated
     target, opened = {}, 0
     for op in case:
         t = op.split()
         if t[0] == "remote_open" and len(t) == 3:
-            if t[2] == "full" and t[1].isdigit() and int(t[1]) < n:
-                target[opened] = int(t[1])
+            if t[2] == "full" and name_proto(t[1], n, fb):
+                target[opened] = name_proto(t[1], n, fb)[0]
             opened += 1
         elif t[0] == "remote_continue" and len(t) == 3 and t[1].isdigit():
             k = int(t[1])
-            if k not in target and t[2].isdigit() and int(t[2]) < n:
-                target[k] = int(t[2])
+            if k not in target and name_proto(t[2], n, fb):
+                target[k] = name_proto(t[2], n, fb)[0]
     other_cause = False
     active = [not via] * n  # the protocols' handles (taken with the `established` event)
     paused_now = set()
@@ -568,6 +781,8 @@ def oracle_c09(case, out):
                 uncertain.add(target[k])      # may or may not have been delivered before
         if t[0] == "local_open" and d["ret"] == "ok":
             cmds[int(t[1])] += 1
+        if t[0] == "burst" and d["ret"].startswith("ok") and t[1].isdigit() and int(t[1]) < n:
+            cmds[int(t[1])] += int(re.match(r"ok(\d+)", d["ret"]).group(1))
         if t[0] == "drop_sub" and d["ret"] == "ok":
             dropped[int(t[1])] += 1
         if t[0] == "pause" and len(t) == 2:
@@ -642,8 +857,137 @@ def oracle_c09(case, out):
     return bad
 
 
+# ------------------------------------------------------------------------------------------ oracle C08
+
+TIMEOUT_MARGIN = 400
+
+
+def oracle_c08(case, out):
+    """The connection task's side of C08: "while a peer is connected a request to open a substream is accepted and
+    answered at most once, with either the opened substream or a failure carrying the same identifier, and exactly once
+    unless its connection terminates first".
+    (a) every `SubstreamOpened(outbound)` / `SubstreamOpenFailure` a protocol receives carries the id of a request THAT
+        protocol made and that has not been answered before;
+    (b) a request that has been with a running connection task for longer than the configured substream open timeout
+        (`sot=`; judged at a `sleep` of at least timeout + margin, where nobody was ever busy: no pause / fill in the
+        case) has been answered — whatever the remote does (stalls the negotiation, never acknowledges the yamux
+        stream) and however many requests are pending;
+    (c) a substream is reported to the protocol that owns the negotiated name, under that name: an inbound substream
+        arrives at the protocol one of whose names the remote proposed, with `fallback` telling which; never with a
+        name the protocol does not have."""
+    bad = []
+
+    def v(kind, msg, i):
+        bad.append({"kind": kind, "msg": msg, "step": i, "op": case[i], "out": out[i] if i < len(out) else None})
+
+    if not case or not case[0].startswith("conn"):
+        return bad
+    co = conn_opts(case[0])
+    n, fb, sot = co["n"], co["fb"], co["sot"]
+    owner = {}            # request id -> protocol
+    asked_at = {}         # request id -> step
+    answered = {}         # request id -> step
+    next_id = 1000
+    busy_ever = False
+    prev_loop = None
+    # names proposed by the remote, per protocol: fallback index -> how often
+    proposed = {}
+    n_open = 0
+    first_prop = {}
+    for op in case:
+        t = op.split()
+        if t[0] == "remote_open" and len(t) == 3:
+            if t[2] == "full" and name_proto(t[1], n, fb):
+                first_prop[n_open] = name_proto(t[1], n, fb)
+            n_open += 1
+        elif t[0] == "remote_continue" and len(t) == 3 and t[1].isdigit():
+            if int(t[1]) not in first_prop and name_proto(t[2], n, fb):
+                first_prop[int(t[1])] = name_proto(t[2], n, fb)
+    for (j, f) in first_prop.values():
+        proposed.setdefault(j, {}).setdefault(f, 0)
+        proposed[j][f] += 1
+    got_in = {}
+    for i, op in enumerate(case):
+        if i >= len(out):
+            break
+        o = out[i]
+        if o.startswith("panic") or o in ("skipped", "inconclusive"):
+            return bad
+        if o == "bad-op":
+            continue
+        d = parse(o)
+        if d is None:
+            continue
+        t = op.split()
+        if t[0] in ("pause", "fill"):
+            busy_ever = True
+        k_new = 0
+        if t[0] == "local_open" and d["ret"] == "ok":
+            k_new = 1
+        if t[0] == "burst" and d["ret"].startswith("ok"):
+            k_new = int(re.match(r"ok(\d+)", d["ret"]).group(1))
+        for _ in range(k_new):
+            owner[next_id] = int(t[1])
+            asked_at[next_id] = i
+            next_id += 1
+        for k, raw in d["praw"].items():
+            for m in raw:
+                b = base(m)
+                if b in ("Oo", "X"):
+                    mm = re.match(r"^(Oo|X)(\d+)", m)
+                    if not mm:
+                        v("answer-without-id", f"protocol {k} received the answer `{m}` without a request id", i)
+                        return bad
+                    rid = int(mm.group(2))
+                    if rid not in owner:
+                        v("answer-unknown-id", f"protocol {k} received `{m}`: no open request with id {rid} was accepted", i)
+                        return bad
+                    if owner[rid] != k:
+                        v("answer-wrong-protocol", f"the answer `{m}` to request {rid} of protocol {owner[rid]} was "
+                          f"delivered to protocol {k}", i)
+                        return bad
+                    if rid in answered:
+                        v("answered-twice", f"request {rid} of protocol {k} was answered twice (`{m}`, first at step "
+                          f"{answered[rid]})", i)
+                        return bad
+                    answered[rid] = i
+                if b in ("Oi", "Oo"):
+                    if m.endswith("!"):
+                        v("reported-to-wrong-protocol", f"protocol {k} received `{m}`: the event names another protocol "
+                          "than the one whose channel it arrived in", i)
+                        return bad
+                    fm = re.search(r"\.f(\d+|\?)", m)
+                    f = 0 if not fm else (int(fm.group(1)) if fm.group(1).isdigit() else -1)
+                    if f < 0 or f > fb[k]:
+                        v("reported-unknown-name", f"protocol {k} received `{m}`: it has no such fallback name", i)
+                        return bad
+                    if b == "Oi":
+                        got_in.setdefault(k, {}).setdefault(f, 0)
+                        got_in[k][f] += 1
+                        if got_in[k][f] > proposed.get(k, {}).get(f, 0):
+                            name = f"{k}" if f == 0 else f"{k}.f{f}"
+                            v("reported-under-wrong-name", f"protocol {k} received the inbound substream `{m}` but the "
+                              f"remote proposed the name `{name}` only {proposed.get(k, {}).get(f, 0)} time(s) in this case "
+                              "(a substream negotiated under one name was reported under another, or to another protocol)", i)
+                            return bad
+        # (b) answered within the configured timeout
+        if (t[0] == "sleep" and sot is not None and len(t) == 2 and t[1].isdigit() and int(t[1]) >= sot + TIMEOUT_MARGIN
+                and not busy_ever and prev_loop == "run" and d["loop"] == "run" and d["ret"] == "ok"):
+            late = sorted(r for r in owner if asked_at[r] < i and r not in answered)
+            dead = d.get("dead", set())
+            late = [r for r in late if owner[r] not in dead]
+            if late:
+                v("open-never-answered", f"{len(late)} accepted open request(s) (ids {late[:4]}{'..' if len(late) > 4 else ''} of "
+                  f"protocol(s) {sorted(set(owner[r] for r in late))}) have been with the running connection task for more "
+                  f"than substream_open_timeout = {sot} ms (+{int(t[1]) - sot} ms) and were never answered — neither opened "
+                  "nor failed — although the connection is still open", i)
+                return bad
+        prev_loop = d["loop"]
+    return bad
+
+
 def oracle(case, out):
-    return oracle_c07(case, out) + oracle_c09(case, out)
+    return oracle_c07(case, out) + oracle_c09(case, out) + oracle_c08(case, out)
 
 
 def stats(case, out, acc, prefix="tcploop"):
@@ -660,6 +1004,17 @@ def stats(case, out, acc, prefix="tcploop"):
                 bump(acc, f"{prefix}:exit:{d['loop']}")
             if d and d["loop"] == "accepting":
                 bump(acc, prefix + ":accept-suspended")
+            if d:
+                for raw in d["praw"].values():
+                    nx = sum(1 for m in raw if m.startswith("X"))
+                    if nx:
+                        bump(acc, prefix + ":open-failures", nx)
+                    if nx > 256:
+                        bump(acc, prefix + ":burst-beyond-ack-backlog")
+                    if any(".f" in m for m in raw):
+                        bump(acc, prefix + ":fallback-name-substreams", sum(1 for m in raw if ".f" in m))
+        elif t == "burst" and ",clogged" in o.split()[0]:
+            bump(acc, prefix + ":command-channel-clogged")
         if o.endswith(" stuck"):
             bump(acc, prefix + ":stuck")
 
